@@ -2,6 +2,7 @@ package prop
 
 import (
 	"encoding/json"
+	"net/url"
 	"os"
 	"path/filepath"
 	"strings"
@@ -224,3 +225,5 @@ func tail(l []string, n int) []string {
 }
 
 func jsonUnmarshal(data []byte, v any) error { return json.Unmarshal(data, v) }
+
+func urlUnescape(s string) (string, error) { return url.QueryUnescape(s) }
